@@ -35,7 +35,12 @@
  *                                                        over are popped when the handler returns
  *          | Z:id | Z:id:t:l:n:k | z:dt:dl:dn:dk     tickit_window_expose from inside the handler (z: own window, relative)
  *
- * Observation (one line per operation):  r=<ret> T=<tree> E=<expose events> G=<grid or ->
+ * Observation (one line per operation):  r=<ret> T=<tree> E=<expose events> G=<grid or -> [W=<writes>] [X=<bytes>]
+ *   writes (C02 only): for every handler invocation of a flush, in the order of the events, id@<runs>, joined by ;
+ *           runs: line.col.len joined by , (- if none): the render-buffer cells (buffer coordinates) whose content
+ *           differs after the handler returned from what it was when the handler was called - read from the raw state
+ *           of the buffer (tickit_renderbuffer_verif_dump, compiled with -DLIBTICKIT_VERIF; a cell's content is its run's
+ *           kind, pen and, for a text, the string and the column of it: how the line is cut into runs does not count)
  *   tree:   id,parent,top,left,lines,cols,visible,children(dot separated or -) joined by |   (closed window: id,x)
  *   events: id:top,left,lines,cols joined by ;  (- if none)
  *   grid:   rows joined by |, five characters per cell: glyph (two), fg+1, bg+1, bold + 2 * reverse
@@ -77,6 +82,121 @@ static void xt_output(TickitTerm *t, const char *bytes, size_t len, void *user)
   }
   memcpy(xbuf + xlen, bytes, len);
   xlen += len;
+}
+
+/* ---- what a handler changed in the render buffer (C02) ---- */
+#ifdef LIBTICKIT_VERIF
+void tickit_renderbuffer_verif_dump(TickitRenderBuffer *rb, FILE *fh);
+#endif
+static int c02;                  /* the history checks C02: record the cells every handler changes */
+static char *wbuf;               /* the W= token of the flush in progress */
+static size_t wlen, wcap;
+
+static void wcat(const char *fmt, ...)
+{
+  char tmp[64];
+  va_list ap;
+  va_start(ap, fmt);
+  int n = vsnprintf(tmp, sizeof tmp, fmt, ap);
+  va_end(ap);
+  if(n <= 0) return;
+  if(wlen + n + 1 > wcap) { wcap = (wlen + n + 1) * 2; wbuf = realloc(wbuf, wcap); }
+  memcpy(wbuf + wlen, tmp, n + 1);
+  wlen += n;
+}
+
+typedef struct { int lines, cols; char *text; char **key; int *klen; int *delta; } RBSnap;
+
+/* The content of every cell of the buffer as stored: key = the start cell's token without the run length and the mask
+ * depth (kind, pen, string or line mask or code point), delta = the cell's distance from the start of its run (it
+ * matters for a text only: the column of the string shown). */
+static RBSnap *rb_snapshot(TickitRenderBuffer *rb)
+{
+#ifdef LIBTICKIT_VERIF
+  RBSnap *sn = calloc(1, sizeof *sn);
+  size_t len = 0;
+  FILE *fh = open_memstream(&sn->text, &len);
+  tickit_renderbuffer_verif_dump(rb, fh);
+  fclose(fh);
+  tickit_renderbuffer_get_size(rb, &sn->lines, &sn->cols);
+  size_t n = (size_t)sn->lines * sn->cols;
+  sn->key = calloc(n + 1, sizeof *sn->key); sn->klen = calloc(n + 1, sizeof *sn->klen); sn->delta = calloc(n + 1, sizeof *sn->delta);
+  char *p = strstr(sn->text, " cells=");
+  if(!p) return sn;
+  p += 7;
+  int *start = calloc(n + 1, sizeof *start);
+  for(int l = 0; l < sn->lines; l++) {
+    for(int c = 0; c < sn->cols; c++) {
+      size_t i = (size_t)l * sn->cols + c;
+      char *tok = p;
+      while(*p && *p != ' ' && *p != '/') p++;
+      char *end = p;
+      if(*p) p++;
+      /* <kind><number>m<maskdepth><rest> */
+      char kind = tok[0];
+      char *q = tok + 1;
+      int num = (int)strtol(q, &q, 10);
+      if(*q == 'm') { q++; strtol(q, &q, 10); }
+      if(kind == 'C') start[i] = num;
+      else {
+        start[i] = c;
+        /* the key is the kind letter followed by what comes after the mask depth: put the letter over the last digit
+         * of the mask depth (the dump is a private copy) */
+        q[-1] = kind;
+        sn->key[i] = q - 1; sn->klen[i] = (int)(end - q) + 1;
+        sn->delta[i] = 0;
+      }
+    }
+  }
+  for(int l = 0; l < sn->lines; l++)
+    for(int c = 0; c < sn->cols; c++) {
+      size_t i = (size_t)l * sn->cols + c;
+      if(start[i] != c && start[i] >= 0 && start[i] < sn->cols) {
+        size_t h = (size_t)l * sn->cols + start[i];
+        sn->key[i] = sn->key[h]; sn->klen[i] = sn->klen[h]; sn->delta[i] = c - start[i];
+      }
+    }
+  free(start);
+  return sn;
+#else
+  (void)rb;
+  return NULL;
+#endif
+}
+
+static void rb_snap_free(RBSnap *sn)
+{
+  if(!sn) return;
+  free(sn->text); free(sn->key); free(sn->klen); free(sn->delta); free(sn);
+}
+
+static RBSnap *last_snap;        /* the buffer as the previous handler of this flush left it */
+
+static int snap_cell_same(const RBSnap *a, const RBSnap *b, size_t i)
+{
+  if(!a->key[i] || !b->key[i]) return a->key[i] == b->key[i];
+  if(a->klen[i] != b->klen[i] || memcmp(a->key[i], b->key[i], a->klen[i]) != 0) return 0;
+  /* the same run content: for a text the column shown must be the same too */
+  return a->key[i][0] != 'T' || a->delta[i] == b->delta[i];
+}
+
+/* append id@runs to the W= token */
+static void record_writes(int id, const RBSnap *before, const RBSnap *after)
+{
+  wcat("%s%d@", wlen ? ";" : "", id);
+  if(!before || !after || before->lines != after->lines || before->cols != after->cols) { wcat("?"); return; }
+  int any = 0;
+  for(int l = 0; l < after->lines; l++) {
+    int c = 0;
+    while(c < after->cols) {
+      if(snap_cell_same(before, after, (size_t)l * after->cols + c)) { c++; continue; }
+      int c0 = c;
+      while(c < after->cols && !snap_cell_same(before, after, (size_t)l * after->cols + c)) c++;
+      wcat("%s%d.%d.%d", any ? "," : "", l, c0, c - c0);
+      any = 1;
+    }
+  }
+  if(!any) wcat("-");
 }
 
 static int pmod(int x, int m) { int r = x % m; return r < 0 ? r + m : r; }
@@ -340,8 +460,18 @@ static int on_expose(TickitWindow *win, TickitEventFlags flags, void *_info, voi
   if(evlen + 64 < sizeof evbuf)
     evlen += snprintf(evbuf + evlen, sizeof evbuf - evlen, "%s%d:%d,%d,%d,%d", evlen ? ";" : "", id,
         info->rect.top, info->rect.left, info->rect.lines, info->rect.cols);
+  /* between two handler invocations of one flush the library only saves, clips, translates, masks and restores: what
+   * the buffer held when the previous handler returned is what this one finds */
+  RBSnap *before = !c02 ? NULL : last_snap ? last_snap : rb_snapshot(info->rb);
+  last_snap = NULL;
   if(behprog[id]) run_prog(id, behprog[id], &info->rect, info->rb);
   else paint(id, &info->rect, info->rb);
+  if(c02) {
+    RBSnap *after = rb_snapshot(info->rb);
+    record_writes(id, before, after);
+    rb_snap_free(before);
+    last_snap = after;
+  }
   return 1;
 }
 
@@ -439,6 +569,7 @@ static void finish(int ret, int events, int grid)
   else obs(" E=-");
   if(grid && !xmode) dump_grid();
   else obs(" G=-");
+  if(c02 && events) obs(" W=%s", wlen ? wbuf : "-");
   if(xmode) {
     obs(" X=");
     obs_hex(xbuf, xlen);
@@ -448,7 +579,7 @@ static void finish(int ret, int events, int grid)
 
 static void engine_begin(void)
 {
-  gd = NULL; mt = NULL; tt = NULL; nwins = 0; evlen = 0; logging = 1; xmode = 0; xlen = 0;
+  gd = NULL; mt = NULL; tt = NULL; nwins = 0; evlen = 0; logging = 1; xmode = 0; xlen = 0; last_snap = NULL;
   memset(wins, 0, sizeof wins); memset(closedw, 0, sizeof closedw);
   memset(behprog, 0, sizeof behprog); memset(nshift, 0, sizeof nshift);
 }
@@ -456,6 +587,7 @@ static void engine_begin(void)
 static void engine_end(void)
 {
   logging = 0;
+  rb_snap_free(last_snap); last_snap = NULL;
   if(!tt) return;
   /* drain the queue of restack requests, then tear down top-down, keeping every child alive across its parent's
    * destruction (tickit_window_destroy writes child->parent after the unref: property C08, not ours) */
@@ -486,11 +618,14 @@ static void engine_op(int argc, char **argv)
 {
   const char *op = argv[0];
   evlen = 0; evbuf[0] = 0;
+  wlen = 0;
+  rb_snap_free(last_snap); last_snap = NULL;    /* every flush renders into a buffer of its own */
   /* no operation needs more than a few milliseconds of CPU: a loop that does not terminate becomes `CRASH signal=26` */
   struct itimerval lim = { .it_interval = { 0, 0 }, .it_value = { 0, 400000 } };
   setitimer(ITIMER_VIRTUAL, &lim, NULL);
   if(strcmp(op, "new") == 0) {
     if(argc != 6 || tt) { obs("bad-op"); return; }
+    c02 = strcmp(argv[1], "C02") == 0;
     int lines = atoi(argv[2]), cols = atoi(argv[3]);
     if(lines < 1 || cols < 1 || lines > 64 || cols > 200) { obs("bad-op"); return; }
     if(argv[4][0] == 'm') {
